@@ -245,7 +245,11 @@ def run(c, prog, ctx):
         got = [(s[1], tuple(sh(a) for a in s[2]), len(cx)) for cx, s in body]
         want = [("taproot::TaprootMerkleBranch::push", ("elem(%s.leaves).merkle_branch" % side, "%s.hash" % other), 1),
                 ("std::vec::Vec::<T, A>::push", (ALL, "elem(%s.leaves)" % side), 2)]
-        okctx = len(body) == 2 and sh(body[1][0][1][1]) == "discr(taproot::TaprootMerkleBranch::push(elem(%s.leaves).merkle_branch, %s.hash))" % (side, other) and body[1][0][1][2] == "=0"
+        # the leaf is kept only on the Ok edge of the checked push; a loop body of another shape (an unchecked Vec::push on
+        # the inner vector, seed C15-9) has no such edge and is reported, not crashed on
+        okctx = (len(body) == 2 and len(body[1][0]) >= 2 and len(body[1][0][1]) >= 3
+                 and sh(body[1][0][1][1]) == "discr(taproot::TaprootMerkleBranch::push(elem(%s.leaves).merkle_branch, %s.hash))" % (side, other)
+                 and body[1][0][1][2] == "=0")
         c.inst("R3.path-push", "%s leaves: path gets the partner hash %s.hash, then the leaf is kept" % (side, other), got == want and okctx, "loop body %s" % got, C.f.where(), C.f.path)
     P = Fn(prog, T + "TaprootMerkleBranch::push")
     tbl = {}
